@@ -68,7 +68,8 @@ SIG_ESC = "walk:escaping-relative-import-not-diagnosed"
 SIG_STAR = "walk:star-import-copies-names-of-another-module"
 SIG_KEY = "walk:import-ir-key-names-another-file"
 SIG_ABS = "walk:absolute-import-mis-resolved"
-# KNOWN (Props/C13 `C13_cex_star_symlink`): the same signature as the locator-level witness (c13links.SIG_STAR)
+# FIXED in 58a9012 (Props/C13 `C13_cex_star_symlink_before_58a9012`): the same signature as the locator-level
+# witness (c13links.SIG_STAR); a run counts as it only when the model of the OLD rule predicts it exactly
 SIG_STARLINK = "star-imported-file-behind-symlink-analysed-under-its-resolved-path"
 
 
@@ -889,13 +890,17 @@ def judge_case(res, case, obs, mode, orc, mo=None, py_resolve=None, links=None):
         exposed = star_exposed(case, orc, links["phys"])
         res.count("walk-links:" + ("star-imported-file-behind-link" if exposed else
                                    "files-behind-links" if links["phys"] else "root-link-only"))
-        if mo is not None and "__error__" not in mo:
-            agree = (impl_projection(case, obs) == model_projection(mo)) if mode == "inproc" \
-                else obs["outcome"] == mo["outcome"]
-    for sig, det in orc.judge(obs, mode):
+    found = orc.judge(obs, mode)
+    if exposed and found and links.get("old_mo") is not None:
+        # does the run behave exactly as the rule before 58a9012 (star-expansion enters the resolved path)?
+        old = links["old_mo"]()
+        if "__error__" not in old:
+            agree = (impl_projection(case, obs) == model_projection(old)) if mode == "inproc" \
+                else obs["outcome"] == old["outcome"]
+    for sig, det in found:
         if exposed and agree and sig in (SIG_MIS, SIG_REJ, SIG_REJ + ":crash:ValueError",
                                          SIG_REJ + ":crash:AssertionError", SIG_REJ + ":cli"):
-            # the pinned behaviour of the star-expansion behind a link, exactly as the model predicts it
+            # the behaviour of the star-expansion behind a link before 58a9012, exactly as its model predicts it
             det = dict(det, original_signature=sig, star_imported_behind_link=exposed)
             sig = SIG_STARLINK
         res.violations.append({"signature": sig, "case": vcase, "detail": det, "impl": {"outcome": obs["outcome"]}})
@@ -943,6 +948,8 @@ def run_stage(world, res, tier, seed, model, py_resolve, fs_first_match, is_in_s
                        [("import_walk", model_payload(world, lc["real"], lc["case"], lc["phys"])) for lc in linked])
     for lc, mo in zip(linked, outs[len(cases):]):
         lc["mo"] = mo
+        lc["old_mo"] = (lambda lc=lc: model.batch([("import_walk", dict(
+            model_payload(world, lc["real"], lc["case"], lc["phys"]), before58a9012=True))])[0])
     roots = [wdir] + world.real_roots(False)[1:]
     # the real CLI on a sample of both (own directories; started now, the runs go on while the in-process
     # runs below keep this process busy)
@@ -1069,8 +1076,15 @@ def replay_linked(world, case, py_resolve, fs_first_match):
         agree = not dk
         print("MODEL agrees" if not dk else "MODEL differs in " + json.dumps({k: [a[k], b[k]] for k in dk})[:3000])
     exposed = star_exposed(case, orc, phys)
-    print("star-imported files behind a link:", exposed, "-> the violations above are",
-          "the KNOWN finding " + SIG_STARLINK if exposed and agree else
-          "NOT the pinned behaviour of the star-expansion (the model of the pinned code predicts something else)"
-          if exposed else "judged as they stand")
+    if exposed:
+        old = common.Model().batch([("import_walk", dict(model_payload(world, real, case, phys), before58a9012=True))])[0]
+        if "__error__" in old:
+            same = False
+        elif case.get("mode") == "cli":
+            same = old["outcome"] == obs["outcome"]
+        else:
+            same = impl_projection(case, obs) == model_projection(old)
+        print("star-imported files behind a link:", exposed, "-> the run",
+              "behaves exactly as the rule before 58a9012 (signature " + SIG_STARLINK + ")" if same else
+              "does not behave as the rule before 58a9012")
     return 0
